@@ -419,6 +419,11 @@ impl Writer {
         if self.needs_cleanup {
             self.cleanup()?;
         }
+        // The switch to a new active file can fail after an entry was appended. Do not let the
+        // file grow any further in that case, switch before the next entry is appended.
+        if self.written_bytes > self.ctx.conf.max_file_size {
+            self.new_active_datafile(self.next_fileid()?)?;
+        }
         // Append log entry
         let datafile_entry = DataFileEntry { tstamp, key, value };
         let index = match self.writer.append(&datafile_entry) {
@@ -432,12 +437,13 @@ impl Writer {
                 return Err(e.into());
             }
         };
+        // Record number of bytes have been written to the active file. The entry is in the file
+        // from here on, even if a later step fails.
+        self.written_bytes += index.len;
         // Sync immediately if the strategy is "always"
         if let SyncStrategy::Always = self.ctx.conf.sync {
             self.writer.sync()?;
         }
-        // Record number of bytes have been written to the active file
-        self.written_bytes += index.len;
 
         // NOTE: This explicit scope is used to control the lifetime of `stats` which we borrow
         // from `self`. `stats` has to be dropped before we make a call to `new_active_datafile`.
